@@ -5,6 +5,7 @@ import (
 	"errors"
 	"fmt"
 	"math"
+	"math/big"
 	"reflect"
 	"regexp"
 	"strconv"
@@ -859,13 +860,43 @@ func (r *Runner) resolvePercentBinaryExpression(v1, v2 interface{}) (interface{}
 	}
 	if n1.IsFinite() && n2.IsFinite() && n2.Sign() != 0 {
 		// operands astronomically far apart: a dividend smaller than the divisor is its own
-		// remainder, otherwise the quotient cannot be represented ("division impossible")
+		// remainder, otherwise the remainder follows from the coefficients alone
 		if n1.CmpAbs(n2) < 0 {
 			return newDecimalBig().Copy(n1), nil
 		}
-		return newDecimalBig().SetNaN(false), nil
+		return farRemainder(n1, n2), nil
 	}
 	return newDecimalBig().Rem(n1, n2), nil
+}
+
+// farRemainder is the remainder of n1 / n2 (truncated division, sign of n1) for |n1| >= |n2|
+// without writing either number out: with n1 = c1 * 10^e1 and n2 = c2 * 10^e2 it is
+// ((c1 mod c2) * (10^(e1-e2) mod c2) mod c2) * 10^e2 when e1 >= e2, the power of ten taken modulo c2
+// by repeated squaring, and (c1 mod c2 * 10^(e2-e1)) * 10^e1 otherwise (that power is no longer than
+// c1 itself). '1e8192 % 7' used to be NaN where '1e8191 % 7' was 3.
+func farRemainder(n1, n2 *decimal.Big) *decimal.Big {
+	coefficient := func(n *decimal.Big) *big.Int {
+		c := new(decimal.Big).Copy(n).SetScale(0).Int(nil)
+		return c.Abs(c)
+	}
+	c1, c2 := coefficient(n1), coefficient(n2)
+	e1, e2 := -n1.Scale(), -n2.Scale()
+	var rem *big.Int
+	exp := e2
+	if e1 >= e2 {
+		pow := new(big.Int).Exp(big.NewInt(10), big.NewInt(int64(e1-e2)), c2)
+		rem = new(big.Int).Mod(c1, c2)
+		rem.Mul(rem, pow).Mod(rem, c2)
+	} else {
+		c2.Mul(c2, new(big.Int).Exp(big.NewInt(10), big.NewInt(int64(e2-e1)), nil))
+		rem = new(big.Int).Mod(c1, c2)
+		exp = e1
+	}
+	result := newDecimalBig().SetBigMantScale(rem, -exp)
+	if n1.Signbit() {
+		result.Neg(result)
+	}
+	return result
 }
 
 // decimalPlacesApart is the distance between the positions of the leading digit of x and the
